@@ -154,6 +154,77 @@ def default_container_case(rng, counters, violations):
             return
 
 
+class ZooFn:
+    def lin(self, x, y=1, *, k=2):
+        return x * k + y
+
+
+def literal_zoo_case(rng, counters, violations):
+    """Literal operands of every kind (Python bool/int/float/complex, numpy scalars of several dtypes, big
+    ints, -0.0) in every node class: the restored expressions must have the same typed structure and the two
+    managers the same contents (by value AND type) under follow-up assignments."""
+    import numpy as np
+    import xdeps
+    import xdeps.refs as R
+    from checks import c11
+    lits = [True, 3, 2 ** 62, 2.5, -0.0, 0.0, complex(1, -2), np.float64(2.5), np.float32(0.1), np.int64(2 ** 62),
+            np.int32(-4), np.float64(0.0), np.bool_(True), np.int64(0)]
+    m = xdeps.Manager()
+    d = {"a": 4.0, "n": 3, "b": -1.5}
+    r = m.ref(d, "r")
+    f = m.ref(ZooFn(), "f")
+    rng.shuffle(lits)
+    made = []
+    for i, lit in enumerate(lits):
+        forms = [("mul", lambda: r["a"] * lit), ("rtruediv", lambda: lit / r["a"]), ("truediv", lambda: r["a"] / lit),
+                 ("add-n", lambda: r["n"] + lit), ("mul-n", lambda: r["n"] * lit), ("call-arg", lambda: f.lin(r["a"], lit)),
+                 ("call-kw", lambda: f.lin(r["b"], k=lit)), ("floordiv", lambda: r["n"] // lit), ("pow", lambda: r["a"] ** lit),
+                 ("nested", lambda: (r["a"] + lit) * (lit - r["b"]))]
+        name, mk = forms[(i + rng.randrange(len(forms))) % len(forms)]
+        key = "x%d" % i
+        try:
+            import warnings
+            with warnings.catch_warnings():
+                warnings.simplefilter("ignore")
+                r[key] = mk()
+            made.append((key, name, canon(lit)))
+        except Exception:
+            continue        # Python itself rejects this literal in this position
+    counters["literal_zoo_cases"] = counters.get("literal_zoo_cases", 0) + 1
+    counters["literal_zoo_definitions"] = counters.get("literal_zoo_definitions", 0) + len(made)
+    wit = {"zoo": made}
+    try:
+        m2 = pickle.loads(pickle.dumps(m))
+    except Exception as exc:
+        violations.append(dict(wit, what="C12 literal zoo: pickle round trip raised %s: %s" % (type(exc).__name__, str(exc)[:200])))
+        return
+    d2 = m2.containers["r"]._owner
+    for tid, t in m.tasks.items():
+        t2 = m2.tasks.get(tid)
+        if t2 is None or c11.norm(t.expr, R) != c11.norm(t2.expr, R):
+            violations.append(dict(wit, what="C12 literal zoo: definition of %s restored with another typed structure: %s vs %s" % (
+                tid, c11.norm(t.expr, R), None if t2 is None else c11.norm(t2.expr, R))))
+            return
+    r2 = m2.containers["r"]
+    import warnings
+    for a, n, b in [(4.0, 3, -1.5), (0.0, 0, 2.0), (1e10, 5, 0.25), (-3.0, 2 ** 40, 1.0), (2.0, -1, 0.0)]:
+        for root in (r, r2):
+            with warnings.catch_warnings():
+                warnings.simplefilter("ignore")
+                for k, v in (("a", a), ("n", n), ("b", b)):
+                    try:
+                        root[k] = v
+                    except Exception:
+                        pass
+        counters["mirrored_followups"] = counters.get("mirrored_followups", 0) + 1
+        ca = {k: canon(v) for k, v in d.items()}
+        cb = {k: canon(v) for k, v in d2.items()}
+        if ca != cb:
+            diff = [(k, ca.get(k), cb.get(k)) for k in ca if ca.get(k) != cb.get(k)]
+            violations.append(dict(wit, what="C12 literal zoo: after a=%r n=%r b=%r original and restored differ: %s" % (a, n, b, diff[:3])))
+            return
+
+
 def run_shard(spec):
     rng = random.Random("C12:%s:%s" % (spec["seed"], spec["shard"]))
     mgrmon.install_run_events()
@@ -165,6 +236,10 @@ def run_shard(spec):
         default_container_case(rng, counters, violations)
         if violations:
             break
+    for n in range(40):
+        if violations:
+            break
+        literal_zoo_case(rng, counters, violations)
     for n in range(spec["managers"] if not spec.get("replay") else 40):
         hg = gen.HistoryGen(rng, layered=True, depth=rng.choice([2, 3, 4]), profile=PROFILE, weights=W)
         ls = lockstep.LockStep(hg.world)
@@ -203,6 +278,13 @@ def run_shard(spec):
             problems.append("task ids differ after restore")
         if supports(m2) != supports(real.mgr):
             problems.append("index supports differ after restore")
+        import xdeps.refs as _R
+        from checks import c11 as _c11
+        for tid, t in real.mgr.tasks.items():
+            t2 = m2.tasks.get(tid)
+            if hasattr(t, "expr") and t2 is not None and _c11.norm(t.expr, _R) != _c11.norm(t2.expr, _R):
+                problems.append("definition of %s restored with another typed structure" % (tid,))
+                break
         if cont(twin) != cont(real):
             problems.append("contents differ after restore")
         for who, m in (("original", real.mgr), ("restored", m2)):
